@@ -335,7 +335,7 @@ def compare(t0, t1, upd):
                 return parent + (j - 1,) + q[len(parent) + 1:]
         return q
 
-    grows = kind in ("create", "append", "mapappend")   # P is a collection that receives new children: every old node stays
+    grows = kind in ("create", "append", "mapappend", "padassign")   # P is a collection that receives new children: every old node stays
     expected = {}
     for q, e in t0.items():
         if is_under(P, q) and not grows:
@@ -401,7 +401,7 @@ def compare_comments(o0, o1, t0, t1, upd):
                 return parent + (j - 1,) + q[len(parent) + 1:]
         return q
     # collections have no position of their own (yaml.v3 gives them the position of their first child)
-    grows = kind in ("create", "append", "mapappend")
+    grows = kind in ("create", "append", "mapappend", "padassign")
     frame0 = [(e["pos"], q) for q, e in t0.items() if (grows or not is_under(P, q)) and q != ("$doc",) and e["a"][0] in ("scalar", "alias")]
     frame1 = [(t1[mapq(q)]["pos"], q) for _, q in frame0 if mapq(q) in t1]
     c0, c1 = comment_positions(o0), comment_positions(o1)
@@ -559,7 +559,7 @@ def make_updates(rng, table, root):
     ups = []
     if not ts:
         return ups
-    for kind in ("assign", "relassign", "delete", "deletefirst", "append", "mapappend", "create", "subtree"):
+    for kind in ("assign", "relassign", "delete", "deletefirst", "append", "padassign", "twostep", "mapappend", "create", "subtree"):
         P = rng.choice(ts)
         e = table[P]
         k = e["a"][0]
@@ -580,6 +580,32 @@ def make_updates(rng, table, root):
             firsts = [p for p in ts if len(p) == 1 and (p[0] == 0 or (isinstance(table[()]["shape"], tuple) and table[()]["shape"] and p[0] == table[()]["shape"][0]))]
             if firsts:
                 ups.append({"kind": "delete", "path": firsts[0], "expr": "del(%s)" % expr_of(firsts[0])})
+        elif kind == "padassign":
+            # assignment beyond the end of a non-empty sequence (flow ones first): nulls are padded in
+            seqs = [p for p in ts if table[p]["a"][0] == "seq" and table[p]["shape"] > 0]
+            flow = [p for p in seqs if table[p]["a"][1] & 32]
+            if seqs:
+                P = rng.choice(flow) if flow and rng.random() < 0.7 else rng.choice(seqs)
+                idx = table[P]["shape"] + rng.choice([1, 2, 3])
+                ups.append({"kind": "padassign", "path": P, "expr": "%s[%d] = 5" % (expr_of(P), idx)})
+        elif kind == "twostep":
+            # two steps in one expression: copy a keyed value into a sequence, then delete in front of it
+            seqs = [p for p in ts if table[p]["a"][0] == "seq" and table[p]["shape"] > 0]
+            vals = [p for p in ts if isinstance(p[-1], str) and table[p]["a"][0] == "scalar"]
+            if seqs and vals:
+                P = rng.choice(seqs)
+                # (a value without comments of its own: the copy would carry them along and print them twice)
+                cands = [q for q in vals if not is_under(P, q) and not table[q]["cm"]]
+                if cands:
+                    Q = rng.choice(cands)
+                    k = rng.randrange(3)
+                    if k == 0:
+                        expr = "%s += %s | del(%s[0])" % (expr_of(P), expr_of(Q), expr_of(P))
+                    elif k == 1:
+                        expr = "%s += [%s] | del(%s[0])" % (expr_of(P), expr_of(Q), expr_of(P))
+                    else:
+                        expr = "%s = %s + [%s] | del(%s[0])" % (expr_of(P), expr_of(P), expr_of(Q), expr_of(P))
+                    ups.append({"kind": "assign", "path": P, "expr": expr, "subtree": True, "twostep": True})
         elif kind == "mapappend":
             maps = [p for p in ts if table[p]["a"][0] == "map"]
             if maps:
@@ -708,7 +734,7 @@ def run(chk):
     by_kind, viol, known_hits = {}, [], {}
     corr_cases, corr_meta = [], []
     for (d, u, docs0), r, o, pr in zip(cases, resp, outs, parsed):
-        kind = u["kind"] + ("-rel" if u.get("rel") else "") + ("-subtree" if u.get("subtree") else "")
+        kind = u["kind"] + ("-rel" if u.get("rel") else "") + ("-twostep" if u.get("twostep") else "-subtree" if u.get("subtree") else "")
         by_kind.setdefault(kind, {"cases": 0, "errors": 0, "diffs": 0})
         by_kind[kind]["cases"] += 1
         if o is None or pr is None or pr.get("err"):
@@ -735,7 +761,7 @@ def run(chk):
             else:
                 viol.append((d, u, o, diffs, sig))
         # correspondence with the model for the update kinds it covers
-        if len(docs0) == 1 and len(pr["docs"]) == 1 and not u.get("rel") and not u.get("subtree") and u["kind"] != "mapappend" \
+        if len(docs0) == 1 and len(pr["docs"]) == 1 and not u.get("rel") and not u.get("subtree") and u["kind"] not in ("mapappend", "padassign") \
                 and docs0[0].get("content") and pr["docs"][0].get("content"):
             root0 = docs0[0]["content"][0]
             cp = content_path(root0, u["path"])
@@ -876,8 +902,8 @@ def classify(diffs, u, t0, doc):
     anything that does not fit exactly is reported)."""
     P = tuple(u["path"])
     kinds = {x[0] for x in diffs}
-    if kinds == {"comment-moved"} and (u.get("subtree") or u["kind"] in ("append", "create", "mapappend")):
-        own = (lambda q: q == P or q == P + ("#k",)) if u["kind"] in ("append", "create", "mapappend") else (lambda q: is_under(P, q))
+    if kinds == {"comment-moved"} and (u.get("subtree") or u["kind"] in ("append", "create", "mapappend", "padassign")):
+        own = (lambda q: q == P or q == P + ("#k",)) if u["kind"] in ("append", "create", "mapappend", "padassign") else (lambda q: is_under(P, q))
         cone_comments = " ".join(c for q, e in t0.items() if own(q) for c in e.get("cm", []))
         if any(re.search(re.escape(x[1]) + r"\b", cone_comments) for x in diffs):
             return "foot-comment-moves-past-next-sibling"
